@@ -45,7 +45,29 @@ def gen_case(rng):
         c["op"] = ["spectrum", rng.choice(["mean", "sum"])]
     else:
         c["op"] = ["timeseries", rng.choice(["mean", "sum"])]
+    if c["op"][0] in ("integrate", "spectrum", "timeseries") and rng.random() < 0.45:
+        c["normalize"] = True
+        if rng.random() < 0.5 and T * F >= 12:
+            # an outlier, so that the sigma clipping of the normalisation has something to reject
+            c["data"][rng.randrange(T)][rng.randrange(F)] += float(rng.choice([1000, 5000, -3000])) * T * F
     return c
+
+
+def clip_stats(x):
+    """mean and deviation after 3-sigma clipping about the median, at most 5 rounds (written from the description of the
+    estimator astropy.stats.sigma_clip implements with its defaults; population deviation)"""
+    x = list(x)
+    for _ in range(5):
+        srt = sorted(x); n = len(srt)
+        med = srt[n // 2] if n % 2 else 0.5 * (srt[n // 2 - 1] + srt[n // 2])
+        mu = sum(x) / n
+        sd = (sum((v - mu) ** 2 for v in x) / n) ** 0.5
+        keep = [v for v in x if med - 3 * sd <= v <= med + 3 * sd]
+        if len(keep) == len(x):
+            break
+        x = keep
+    mu = sum(x) / len(x)
+    return mu, (sum((v - mu) ** 2 for v in x) / len(x)) ** 0.5
 
 
 def g_frame(c):
@@ -78,9 +100,9 @@ def run(ctx):
     quick = ctx.tier == "quick"
     ctx.rule = ("frames up to 8 x 24 with distinct integer pixels on an exact grid, both orientations, synthetic or loaded from .fil/.h5; every "
                 "slice [l,r); de-drift by 0, +-1/8 .. +-6 channels per step (argument or metadata), including rates beyond the frame's limit; "
-                "integrate over either axis with sum/mean and every axis/mode alias, as array or frame; spectrum / timeseries; "
+                "integrate over either axis with sum/mean and every axis/mode alias, as array or frame; spectrum / timeseries; each with and without normalisation (ramp data, half of them with an outlier); "
                 "non-trivial = derived object has more than one pixel; distinct = distinct case")
-    ctx.assumptions = ["sigma-clip normalisation (normalize=True) is astropy's and is not modelled", "means over non-power-of-two counts are compared to 1e-12"]
+    ctx.assumptions = ["normalisation (normalize=True) is compared to 1e-9 with (x - m) / s for m, s from an independent 3-sigma clipping about the median (the model and its theorems cover the un-normalised integration)", "means over non-power-of-two counts are compared to 1e-12"]
     cases = corpus() + [gen_case(rng) for _ in range(200 if quick else 4000)]
     impl = []
     for part in C.run_impl_parallel("c17_impl", [dict(cases=ch) for ch in C.chunks(cases, C.NCPU)]):
@@ -154,6 +176,15 @@ def run(ctx):
                 got = [float.fromhex(x) for x in r["array"]]
             else:
                 got = [float.fromhex(x) for row in res["data"] for x in row]
+            if c.get("normalize"):
+                gotn, got = got, [float.fromhex(x) for x in r["raw"]]
+                mu, sd = clip_stats(want)
+                ctx.tally("normalised", "degenerate (zero deviation)" if sd == 0 else "yes")
+                if sd > 0:
+                    wn = [(v - mu) / sd for v in want]
+                    if len(gotn) != len(wn) or any(not abs(a - b) <= 1e-9 * max(1.0, abs(b)) for a, b in zip(gotn, wn)):
+                        bad("integrate-normalised", "%s with normalisation (%s): values %s..., expected (x - clipped mean) / clipped deviation = %s..." %
+                            (op, "object" if res is not None else "array", gotn[:3], wn[:3]))
             if len(got) != len(want) or any(abs(a - b) > 1e-12 * max(1.0, abs(b)) for a, b in zip(got, want)):
                 bad("integrate-values", "%s: values %s..., expected %s..." % (op, got[:3], want[:3]))
             if res is not None:
@@ -184,7 +215,7 @@ def run(ctx):
                     if got != want or abs(Fraction(fminm[0], fminm[1]) - fr_of(res["fs0"])) > Fraction(df) / 10 ** 6 or Fm != res["nfs"]:
                         ctx.mismatch("%s: model data/axis differ from the implementation's" % (op,), c)
             elif r["err"] is None:
-                got = [fr_of(x) for x in r["array"]] if "array" in r else [fr_of(x) for row in res["data"] for x in row]
+                got = [fr_of(x) for x in r["raw"]] if c.get("normalize") else ([fr_of(x) for x in r["array"]] if "array" in r else [fr_of(x) for row in res["data"] for x in row])
                 want = [Fraction(a, b) for (a, b) in mv]
                 if len(got) != len(want) or any(abs(a - b) > Fraction(1, 10 ** 12) * max(1, abs(b)) for a, b in zip(got, want)):
                     ctx.mismatch("%s: model values differ from the implementation's" % (op,), c)
